@@ -604,6 +604,12 @@ def gen_orderflow(repo):
             fn = find_function(tree, cls, name)
             for tgt, text in sites_of(fn):
                 site_rows.append('  (%s, %s, %s, %s)' % (coq_str(dim), coq_str(name), coq_str(tgt), coq_str(text)))
+    io_rows = []
+    for dim, rel in SETUP_FILES.items():
+        tree, _ = _parse(rel, repo)
+        entry, exit_skip = wrapper_io(tree, '_Algorithm' if dim == '1d' else '_Algorithm2D', dim)
+        io_rows.append('  (%s, %s, %s)' % (coq_str(dim), coq_str(entry), coq_str(exit_skip)))
+    data_optional = []
     rows = []
     methods = []
     for dim, rel in MODS:
@@ -616,6 +622,14 @@ def gen_orderflow(repo):
                         raise TranslateError('%s: unregistered method %s uses the sort orders' % (rel, fn.name))
                     continue
                 sort_keys, skip = info
+                pos = fn.args.args
+                dflt = [None] * (len(pos) - len(fn.args.defaults)) + list(fn.args.defaults)
+                if len(pos) < 2 or pos[1].arg != 'data':
+                    raise TranslateError('%s/%s: second parameter is not `data`' % (dim, fn.name))
+                if dflt[1] is not None:
+                    if not (isinstance(dflt[1], ast.Constant) and dflt[1].value is None):
+                        raise TranslateError('%s/%s: unexpected default for data' % (dim, fn.name))
+                    data_optional.append('  (%s, %s, %s)' % (coq_str(dim), coq_str(fn.name), 'true' if skip else 'false'))
                 methods.append('  (%s, %s, %s, %s)' % (coq_str(dim), coq_str(fn.name), 'true' if skip else 'false',
                                                        '[' + '; '.join(coq_str(k) for k in sort_keys) + ']'))
                 if skip or fn.name in PINNED_METHODS:
@@ -639,9 +653,36 @@ def gen_orderflow(repo):
                 raise TranslateError('%s: module-level function %s uses the sort orders' % (rel, fn.name))
     out.append('Definition gen_setups : list (string * string * Z) := [\n' + ';\n'.join(setup_rows) + '\n].\n')
     out.append('Definition gen_methods : list (string * string * bool * list string) := [\n' + ';\n'.join(methods) + '\n].\n')
+    out.append('Definition gen_wrapper_io : list (string * string * string) := [\n' + ';\n'.join(io_rows) + '\n].\n')
+    out.append('Definition gen_data_optional : list (string * string * bool) := [\n' + ';\n'.join(data_optional) + '\n].\n')
     out.append('Definition gen_rows : list row := [\n' + ';\n'.join(rows) + '\n].\n')
     out.append('Definition gen_sites : list (string * string * string * string) := [\n' + ';\n'.join(site_rows) + '\n].\n')
     return '\n'.join(out)
+
+
+def wrapper_io(tree, cls, dim):
+    """(entry test, exit skip_sorting expression) of _register.inner: when the data is sorted on entry and which flag
+    decides whether the baseline is un-sorted on exit.  wrapperN (C02/Model.v) models: entry iff data present and not
+    the decorator's skip_sorting; exit iff not the decorator's skip_sorting (never depending on the data being given)."""
+    reg = find_function(tree, cls, '_register')
+    inner = [n for n in ast.walk(reg) if isinstance(n, ast.FunctionDef) and n.name == 'inner']
+    if len(inner) != 1:
+        raise TranslateError('%s/_register: inner not found' % dim)
+    inner = inner[0]
+    tests = [ast.unparse(n.test) for n in ast.walk(inner) if isinstance(n, ast.If) and not n.orelse
+             and any(isinstance(st, ast.Assign) and sort_site(st.value) for st in n.body)]
+    rets = [n.value for n in ast.walk(inner) if isinstance(n, ast.Return) and isinstance(n.value, ast.Call)
+            and isinstance(n.value.func, ast.Attribute) and n.value.func.attr == '_return_results']
+    if len(tests) != 1 or len(rets) != 1:
+        raise TranslateError('%s/_register.inner: expected one guarded entry sort and one _return_results exit' % dim)
+    call = rets[0]
+    skip = [kw.value for kw in call.keywords if kw.arg == 'skip_sorting']
+    if not skip and len(call.args) >= 5:
+        skip = [call.args[4]]
+    if len(skip) != 1:
+        raise TranslateError('%s/_register.inner: skip_sorting argument of _return_results not found' % dim)
+    # every other mention of the sort order / the flags in inner must be one of these two places
+    return tests[0], ast.unparse(skip[0])
 
 
 def method_table(repo):
